@@ -691,7 +691,7 @@ func runPwire(w *Worker) {
 
 	// generated trees, parsed under matching and mismatching options, plus mutations
 	r := w.Rand("trees")
-	n := w.Pick(1000, 100000) / w.N
+	n := w.Pick(3000, 100000) / w.N
 	for i := 0; i < n; i++ {
 		room := []int{0, 1, 2, 3, 5, 8}[r.Intn(6)]
 		enc, used := genBody(r, nil, room, 1+r.Intn(6))
